@@ -515,7 +515,13 @@ fn main() {
     }
     if let Some(path) = &args.replay {
         let v: serde_json::Value = serde_json::from_str(&std::fs::read_to_string(path).expect("replay file")).expect("json");
-        let src = v["case"]["source"].as_str().expect("case.source").to_string();
+        let src = match v["case"]["source"].as_str() {
+            Some(s) => s.to_string(),
+            None => {
+                println!("this replay stores no source text (see its `what` field)");
+                return;
+            }
+        };
         let vm = new_vm(false);
         println!("source:\n{}", src);
         let e = evaluate(&vm, "replay", &src);
